@@ -64,6 +64,10 @@ FRAME_RE = re.compile(r"^\s*#\d+ 0x[0-9a-f]+ in (\S+) (/\S+?):(\d+)", re.M)
 
 def sanitizer_signature(text):
     """Return a stable signature for a sanitizer report in text, or None."""
+    if "ERROR: VERIF-HANG" in text:
+        return "hang:case-exceeded-cpu-budget"
+    if "LEDGER: " in text:
+        return "ledger:" + re.search(r"LEDGER: (.*)", text).group(1).strip().replace(" ", "-")
     m = UB_RE.search(text)
     san = SAN_RE.search(text)
     if m and (not san or m.start() < san.start()):
@@ -242,7 +246,7 @@ def run_pool(jobs, outdir, wall_cap):
 
 
 # ---------------------------------------------------------------- minimisation (ddmin over lines)
-def ddmin(units, test, budget=400):
+def ddmin(units, test, budget=120):
     """Classic ddmin. test(list)->True if still failing with the same signature."""
     n = 2
     calls = 0
